@@ -9,19 +9,86 @@ of the schedule: shrinkable and replayable.
 """
 from __future__ import unicode_literals
 
+import dis
 import os
 import sys
 import threading
 
+MUTABLE = (dict, list, set, bytearray)
+
+
+IMPORT_LEN = {}         # id(container) -> len right after the import of the package
+STATE = set()           # ids of containers seen with another size than at import: module-level STATE (caches, memos, registries)
+
+
+def note_import_state():
+    for name, mod in list(sys.modules.items()):
+        if name == "cvss" or name.startswith("cvss."):
+            for v in list(vars(mod).values()):
+                if isinstance(v, MUTABLE):
+                    IMPORT_LEN.setdefault(id(v), len(v))
+
+
+def is_state(v):
+    if not isinstance(v, MUTABLE):
+        return False
+    if id(v) in STATE:
+        return True
+    if IMPORT_LEN.get(id(v), -1) != len(v):         # created later, or grown / shrunk since the import: not a constant table
+        STATE.add(id(v))
+        return True
+    return False
+
+
+def hot_lines(code, globs):
+    """{line: names} for the lines of a code object that load a global bound to a mutable container, or (re)bind / delete any global
+    (names: None).  Whether such a line touches STATE is decided when it runs (is_state)."""
+    out = {}
+    line = code.co_firstlineno
+    for ins in dis.get_instructions(code):
+        ln = getattr(ins, "starts_line", None)
+        if ln is not None and ln is not True and ln is not False:
+            line = ln
+        elif getattr(ins, "positions", None) is not None and ins.positions.lineno is not None:
+            line = ins.positions.lineno
+        if ins.opname in ("STORE_GLOBAL", "DELETE_GLOBAL"):
+            out[line] = None
+        elif ins.opname in ("LOAD_GLOBAL", "LOAD_NAME") and isinstance(globs.get(ins.argval), MUTABLE) and out.get(line, ()) is not None:
+            out.setdefault(line, []).append(ins.argval)
+    return out
+
 
 class Sched(object):
-    def __init__(self, jobs, schedule, target_dir, tail_quantum=None):
+    def __init__(self, jobs, schedule, target_dir, tail_quantum=None, pct=None):
         self.jobs = jobs
         self.n = len(jobs)
         self.schedule = [(int(t), int(k)) for t, k in schedule]
         self.pos = 0
-        self.tail_quantum = tail_quantum      # after the schedule: round robin with this quantum (None: run to completion)
+        # after the schedule: round robin with this quantum (None: run to completion); a pair [seed, max] instead of a number
+        # gives an aperiodic tail: thread and run length (1..max) of every turn come from a linear congruential sequence
+        self.tail_quantum = tail_quantum
+        self.lcg = None
+        if isinstance(tail_quantum, (list, tuple)):
+            self.lcg = int(tail_quantum[0]) & 0xFFFFFFFF
+            self.lcg_max = max(1, int(tail_quantum[1]))
         self.rr = 0
+        # priority mode (after Burckhardt et al., "A randomized scheduler with probabilistic guarantees of finding bugs"): the
+        # runnable thread of highest priority runs; at d-1 change points, counted in HOT line events (lines that touch module-level
+        # mutable state), the running thread drops below all others.  A thread parked on such a line stays parked for long.
+        self.pct = pct
+        self.hot_events = 0
+        self._hot = {}
+        if pct:
+            x = int(pct["seed"]) & 0x7FFFFFFF
+            pr = []
+            for i in range(self.n):
+                x = (x * 1103515245 + 12345) & 0x7FFFFFFF
+                pr.append(((x >> 8), i))
+            self.prio = dict((t, self.n + 10 + r) for r, (_, t) in enumerate(sorted(pr)))
+            self.change = {}
+            for j in range(max(0, int(pct.get("d", 2)) - 1)):
+                x = (x * 1103515245 + 12345) & 0x7FFFFFFF
+                self.change[1 + (x >> 4) % max(1, int(pct.get("k", 1000)))] = self.n - j      # new, ever lower priority
         self.sems = [threading.Semaphore(0) for _ in jobs]
         self.done = [False] * self.n
         self.results = [None] * self.n
@@ -32,6 +99,14 @@ class Sched(object):
         self.target_dir = target_dir.rstrip(os.sep) + os.sep
 
     def pick(self):
+        if self.pct:
+            best = None
+            for t in range(self.n):
+                if not self.done[t] and (best is None or self.prio[t] > self.prio[best]):
+                    best = t
+            if best is not None:
+                self.cur, self.budget = best, 10 ** 9
+            return best
         while self.pos < len(self.schedule):
             t, k = self.schedule[self.pos]
             self.pos += 1
@@ -39,6 +114,15 @@ class Sched(object):
             if not self.done[t]:
                 self.cur, self.budget = t, max(1, k)
                 return t
+        if self.lcg is not None:
+            self.lcg = (self.lcg * 1103515245 + 12345) & 0x7FFFFFFF
+            start, k = (self.lcg >> 16) % self.n, 1 + (self.lcg >> 8) % self.lcg_max
+            for i in range(self.n):
+                t = (start + i) % self.n
+                if not self.done[t]:
+                    self.cur, self.budget = t, k
+                    return t
+            return None
         for i in range(self.n):
             t = (self.rr + 1 + i) % self.n if self.tail_quantum else i
             if not self.done[t]:
@@ -47,8 +131,40 @@ class Sched(object):
                 return t
         return None
 
-    def yield_point(self, tid):
+    def is_hot(self, frame):
+        code = frame.f_code
+        lines = self._hot.get(code)
+        if lines is None:
+            try:
+                lines = hot_lines(code, frame.f_globals)
+            except Exception:  # noqa
+                lines = {}
+            self._hot[code] = lines
+        if frame.f_lineno not in lines:
+            return False
+        names = lines[frame.f_lineno]
+        if names is None:
+            return True
+        g = frame.f_globals
+        for nm in names:
+            if is_state(g.get(nm)):
+                return True
+        return False
+
+    def yield_point(self, tid, frame=None):
         self.events += 1
+        if self.pct:
+            if frame is not None and self.is_hot(frame):
+                self.hot_events += 1
+                low = self.change.get(self.hot_events)
+                if low is not None:
+                    self.prio[tid] = low
+                    nxt = self.pick()
+                    if nxt is not None and nxt != tid:
+                        self.switches += 1
+                        self.sems[nxt].release()
+                        self.sems[tid].acquire()
+            return
         self.budget -= 1
         if self.budget <= 0:
             nxt = self.pick()
@@ -60,7 +176,7 @@ class Sched(object):
     def tracer(self, tid):
         def local(frame, event, arg):
             if event == "line":
-                self.yield_point(tid)
+                self.yield_point(tid, frame)
             return local
 
         def glob(frame, event, arg):
